@@ -75,7 +75,8 @@ Case ==
               [ from  |-> Str(q.f, q.sf), to |-> Str(q.t, q.st), f |-> q.f, t |-> q.t,
                 reach |-> Reachable(rules, q.f, q.t),
                 adm   |-> { [i \in 1..Len(c) |-> Pos(c[i])] : c \in Admissible(rules, q.f, q.t) } ]
-  IN [ dupname |-> \E a, b \in V : a # b /\ Name[a] = Name[b],   \* one version name in two API groups
+      Used == {r.f : r \in rules} \cup {r.t : r \in rules} \cup {qs[k].f : k \in 1..Len(qs)} \cup {qs[k].t : k \in 1..Len(qs)}
+  IN [ dupname |-> \E a, b \in Used : a # b /\ Name[a] = Name[b],   \* the case involves one version name in two API groups
        rules  |-> [i \in 1..Len(RS) |-> <<Str(RS[i].f, RS[i].sf), Str(RS[i].t, RS[i].st)>>],
        arules |-> [i \in 1..Len(RS) |-> <<RS[i].f, RS[i].t>>],
        qs     |-> [k \in 1..Len(qs) |-> Q(k)] ]
